@@ -318,6 +318,7 @@ func gsub(t *rt.Thread, c *rt.GoCont) (rt.Cont, error) {
 		sb         strings.Builder // Build the result string into this
 		matchCount int64
 		allowEmpty = true
+		copying    bool // true once something has been written to sb
 	)
 	// We require memory for the string we build as we go along.  In order to
 	// save allocations in case there are no substitutions, we do not start
@@ -325,7 +326,8 @@ func gsub(t *rt.Thread, c *rt.GoCont) (rt.Cont, error) {
 	// is achieved by keeping the variable sj the same until bytes are written
 	// in the string builder.
 	for ; matchCount != n; matchCount++ {
-		captures, usedCPU := pat.Match(string(s), si, t.UnusedCPU())
+		// An anchored pattern can only match where the search starts
+		captures, usedCPU := pat.MatchFromStart(string(s), si, t.UnusedCPU())
 		t.RequireCPU(usedCPU)
 		if len(captures) == 0 {
 			break
@@ -344,7 +346,12 @@ func gsub(t *rt.Thread, c *rt.GoCont) (rt.Cont, error) {
 				_, _ = sb.WriteString(s[sj:start])
 				_, _ = sb.WriteString(sub)
 				sj = end
+				copying = true
 			}
+		}
+		if pat.StartAnchored() {
+			matchCount++
+			break
 		}
 		allowEmpty = start >= end
 		if allowEmpty {
@@ -355,7 +362,7 @@ func gsub(t *rt.Thread, c *rt.GoCont) (rt.Cont, error) {
 	}
 	var res rt.Value
 	switch {
-	case sb.Len() == 0:
+	case !copying:
 		// We return the input string to save an allocation.
 		res = c.Arg(0)
 	case sj < len(s):
